@@ -4145,6 +4145,8 @@ class SFTPClient:
             raise exc(dstpath.decode('utf-8', 'backslashreplace') +
                       ' must be a directory')
 
+        dstfiles: Set[bytes] = set()
+
         for srcname in srcnames:
             srcfile = cast(bytes, srcname.filename)
             basename = srcfs.basename(srcfile)
@@ -4155,6 +4157,24 @@ class SFTPClient:
                 dstfile = dstfs.compose_path(basename, parent=dstpath)
             else:
                 dstfile = dstpath
+
+            # Different sources can have the same base name. Don't let a
+            # later one overwrite, or be written through a link created
+            # for, an earlier one with that name.
+            if dstfile in dstfiles:
+                exc = SFTPFailure(dstfile.decode('utf-8', 'backslashreplace') +
+                                  ' would be written more than once')
+
+                setattr(exc, 'srcpath', srcfile)
+                setattr(exc, 'dstpath', dstfile)
+
+                if error_handler:
+                    error_handler(exc)
+                    continue
+                else:
+                    raise exc
+
+            dstfiles.add(dstfile)
 
             await self._copy(srcfs, dstfs, srcfile, dstfile, srcname.attrs,
                              preserve, recurse, follow_symlinks, sparse,
